@@ -535,6 +535,12 @@ HARNESSES = [
     H('C09', 'c09_bidi_rule_n4', '$P::c09::bidi_rule::<4, 16, _>', crate='profiles', unwind=7, stubs=('bidiw',), timeout=1500, mem_gb=16,
       funcs=['usernames::directionality_rule (via both username profiles)', 'bidi::has_rtl', 'bidi::satisfy_bidi_rule', 'bidi::is_valid_rtl_label', 'bidi::is_valid_ltr_label', 'bidi::bidi_class'],
       bound='every sequence of 0..=4 characters over the 23 Bidi classes (one witness character per class)'),
+    H('C09', 'c09_bidi_rule_n5', '$P::c09::bidi_rule::<5, 20, _>', crate='profiles', unwind=8, stubs=('bidiw',), timeout=1500, mem_gb=12,
+      funcs=['usernames::directionality_rule (via both username profiles)', 'bidi::has_rtl', 'bidi::satisfy_bidi_rule', 'bidi::is_valid_rtl_label', 'bidi::is_valid_ltr_label', 'bidi::bidi_class'],
+      bound='every sequence of 0..=5 characters over the 23 Bidi classes (one witness character per class)'),
+    H('C09', 'c09_bidi_rule_n7', '$P::c09::bidi_rule::<7, 28, _>', crate='profiles', unwind=10, stubs=('bidiw',), tiers=T, timeout=3400, mem_gb=16,
+      funcs=['usernames::directionality_rule (via both username profiles)', 'bidi::has_rtl', 'bidi::satisfy_bidi_rule', 'bidi::is_valid_rtl_label', 'bidi::is_valid_ltr_label', 'bidi::bidi_class'],
+      bound='every sequence of 0..=7 characters over the 23 Bidi classes (one witness character per class)'),
     H('C09', 'c09_bidi_rule_n6', '$P::c09::bidi_rule::<6, 24, _>', crate='profiles', unwind=9, stubs=('bidiw',), tiers=T, timeout=3400, mem_gb=24,
       funcs=['usernames::directionality_rule (via both username profiles)', 'bidi::has_rtl', 'bidi::satisfy_bidi_rule', 'bidi::is_valid_rtl_label', 'bidi::is_valid_ltr_label', 'bidi::bidi_class'],
       bound='every sequence of 0..=6 characters over the 23 Bidi classes (one witness character per class)'),
